@@ -27,6 +27,10 @@
 (*                                  directory): not this PUT's doing       *)
 (*                      "other"     anything else (wrong size, partial     *)
 (*                                  file, a temp file listed as a block)   *)
+(*   IndexDuring(entries) lines of a GET /index answered WHILE the PUT is  *)
+(*                      being processed (same abstraction; a line "H+size" *)
+(*                      whose size is that of the block is "complete", of  *)
+(*                      the placed copy "pre")                             *)
 (*   DirScan(blk, tmpblk) the block directory: blk = class of the file at  *)
 (*                      the block path ("absent" or as for Index);         *)
 (*                      tmpblk = some OTHER file there has a name that     *)
@@ -43,7 +47,8 @@
 (*      the complete correct block, never partial or mixed data"           *)
 (*                      GetOk: class # "partial"                           *)
 (*  (c) "the block index lists only complete blocks with their true sizes" *)
-(*                      IndexOk: no entry is "other"                       *)
+(*                      IndexOk: no entry is "other"; the same at every    *)
+(*                      instant of the write (IndexDuringOk)               *)
 (*  (d) "temporary files left behind are never visible as blocks"          *)
 (*                      IndexOk (a temp file listed is "other");           *)
 (*                      DirScanOk: ~tmpblk                                 *)
@@ -80,6 +85,8 @@ GetOk(class) == /\ class \in {"complete", "error"}                 \* (b)
 IndexOk(entries) == /\ \A i \in DOMAIN entries : entries[i] \in {"complete", "pre"}          \* (c) (d)
                     /\ acked => \E i \in DOMAIN entries : entries[i] = "complete"            \* (a)
 
+IndexDuringOk(entries) == \A i \in DOMAIN entries : entries[i] \in {"complete", "pre"}          \* (c) (d)
+
 DirScanOk(blk, tmpblk) == /\ ~tmpblk                                \* (d)
                           /\ acked => blk = "complete"              \* (a)
 
@@ -91,4 +98,5 @@ Restart            == phase = "ended" /\ RestartEff
 Get(class)         == phase = "ended" /\ GetOk(class) /\ ObserveEff
 Index(entries)     == phase = "ended" /\ IndexOk(entries) /\ ObserveEff
 DirScan(blk, tb)   == phase = "ended" /\ DirScanOk(blk, tb) /\ ObserveEff
+IndexDuring(entries) == phase \in {"running", "ended"} /\ IndexDuringOk(entries) /\ ObserveEff
 =============================================================================
